@@ -8,7 +8,7 @@ from ..opsets import ConstEval, NotConst
 from .. import ctors
 from ..tables import smtlib as T
 from .c07 import TREE, DAGP, CMD
-from .c08 import token_table, PARSER
+from .c08 import PARSER
 
 HRP = "pysmt.printers.HRPrinter"
 HRL = "pysmt.parsing.HRLexer"
@@ -21,9 +21,11 @@ EXPLANATION = (
     "(constant arrays: an equivalent store chain) (R5).  Human-readable: the text written by the interpreted "
     "HRSerializer is read by the interpreted Pratt parser of pysmt/parsing.py; the result has the same sort "
     "and, by structural comparison or exhaustive evaluation over small domains, the same meaning (R6).  "
-    "Scripts: every script of the import corpus is re-serialised by the interpreted SmtLibScript.serialize "
-    "and read again; the command names agree and every assertion denotes the same thing (R7).  Every command "
-    "SmtLibCommand.serialize can write has a parser entry (R3).")
+    "Scripts: every script of the import corpus is re-serialised by the interpreted SmtLibScript.serialize - in "
+    "tree form and in let-DAG form, where one printer serves all commands of the script - and read again; the "
+    "command names agree and every assertion denotes the same thing (R7).  One script per "
+    "command of the command set: re-serialised and read again it is the same command list; commands "
+    "SmtLibCommand.serialize declines with NotImplementedError on the pinned tree are tabled (R3).")
 NOT_DECIDED = ["formulas and scripts outside the menus", "grouping of n-ary operators in the human-readable grammar "
                "(allowed by the property; the comparison is up to meaning)"]
 
@@ -32,67 +34,10 @@ def run(ctx):
     repo, ops, ht = get_repo(), get_ops(), get_tables()
     ctx.analysed["modules"] = ["pysmt/smtlib/printers.py", "pysmt/smtlib/parser/parser.py", "pysmt/smtlib/script.py",
                                "pysmt/printers.py", "pysmt/parsing.py", "pysmt/formula.py"]
-    table, fix = token_table(repo)
-
-    def token_ctors(tok):
-        """manager constructors token `tok` can resolve to"""
-        ent = table.get(tok)
-        if ent is None:
-            return None
-        kind, name = ent
-        if kind == "ctor":
-            return {name}
-        if kind == "self":
-            if name in fix:
-                return {fix[name]}
-            outs = set()
-            for t in adapter_targets(repo, PARSER, name):
-                if t.startswith("self."):
-                    outs.add(fix.get(t[5:], t))
-                else:
-                    outs.add(t)
-            return outs
-        return {"<" + name + ">"}
-
     if ctx.want("R3"):
-        rs = ctx.rule("R3", "every command that can be serialised has a parser entry")
-        cls, f = repo.method(CMD, "serialize")
-        ce = ConstEval(repo)
-        mod = repo.cls(CMD).module
-        names = set()
-        for n in ast.walk(f):
-            if isinstance(n, ast.If) and isinstance(n.test, ast.Compare) and norm(n.test.left) == "self.name":
-                raises = any(isinstance(s, ast.Raise) for s in n.body)
-                if raises:
-                    continue
-                c = n.test.comparators[0]
-                try:
-                    v = ce.expr(mod, c)
-                except NotConst:
-                    continue
-                if isinstance(v, str):
-                    names.add(v)
-                elif isinstance(v, (list, tuple, set, frozenset)) and len(v) < 12:
-                    names |= set(v)
-        pcls, init = repo.method(PARSER, "__init__")
-        cmds = set()
-        for n in ast.walk(init):
-            if isinstance(n, ast.Assign) and norm(n.targets[0]) == "self.commands" and isinstance(n.value, ast.Dict):
-                for k in n.value.keys:
-                    try:
-                        cmds.add(ce.expr(repo.cls(PARSER).module, k))
-                    except NotConst:
-                        pass
-        if not names or not cmds:
-            ctx.error("R3", "command tables not extracted (%d serialisable, %d parsable)" % (len(names), len(cmds)))
-        for nm in sorted(names):
-            if nm in cmds:
-                rs.ok({"command": nm, "serialisable": True, "parsable": True})
-            else:
-                ctx.finding(rs, "%s.serialize|unparsable|%s" % (CMD, nm),
-                            "command '%s' can be serialised but the parser has no entry for it" % nm,
-                            method_loc(repo, cls, f))
-        ctx.floor(rs, 20)
+        rs = ctx.rule("R3", "every command: its script, re-serialised, is read again as the same command list (one script per command)")
+        from . import c08_tokens
+        c08_tokens.run_roundtrip(ctx, rs)
 
     if ctx.want("R5"):
         rs = ctx.rule("R5", "SMT-LIB round trip: parse(print(f)) is f, tree and let-DAG form, through the interpreted printer and parser")
